@@ -213,12 +213,13 @@ def input_rewriting(ctx):
 ''', 'partial', 'x[i] = value for every (i, value) of the mask')
     _ref(ctx, ctx.func(TL + ':synchronized.dec.func'), '''def func(x, *args, **kwds):
     for i,j in mask.items():
-        if isinstance(j, tuple):
+        try: x[i] = x[j]
+        except (TypeError, IndexError) as err:
+          if not isinstance(j, tuple):
+            if isinstance(err, TypeError): raise
+            continue
           j0,j1 = (j[:2] + (1,))[:2]
           try: x[i] = j1(x[j0]) if isinstance(j1, _Callable) else j1*x[j0]
-          except IndexError: pass
-        else:
-          try: x[i] = x[j]
           except IndexError: pass
     return f(x, *args, **kwds)
 ''', 'synchronized', 'x[i] = x[j] (or scaled) for every (i, j) of the mask')
@@ -226,7 +227,7 @@ def input_rewriting(ctx):
     x = asarray(list(x))
     mask = abs(x) < tol
     if not clip:
-        x = x.astype(float)
+        if mask.any() and x.dtype.kind in 'iub': x = x.astype(float)
         x[mask==False] = (x + sum(x[mask])/(len(mask)-sum(mask)))[mask==False]
     x[mask] = 0.0
     return x.tolist()
@@ -352,6 +353,10 @@ def bounded_membership_and_addressing(ctx):
     ctx.need(len(stores) >= 4, 'bounded: expected >= 4 stores into seq, found %d' % len(stores))
     first_store = min(st.lineno for st, ix in stores)
     pre = [st for st in f.node.body if st.lineno < first_store and st.lineno >= st0.lineno]
+    # only the statements that can still change `at`: what follows its last binding (the dtype widening of seq) is not part of the index set
+    binds_at = [k_ for k_, st in enumerate(pre) if any(isinstance(x, ast.Name) and x.id == 'at' and isinstance(x.ctx, ast.Store) for x in ast.walk(st))]
+    if binds_at:
+        pre = pre[:binds_at[-1] + 1]
     AT = combined_value(pre, 'at')
     ctx.need(AT is not None, 'bounded: the written index set is not bound on every path')
     is_none = T.mk_cmp('is', IDX, ('const', None))
